@@ -17,6 +17,8 @@ import hashlib
 import heapq
 
 EPOCH = 1_700_000_000.0
+SLOW_STEP_CPU_S = 1.5          # CPU seconds (thread_time) one step of a simulated thread may burn before it is recorded as a stall
+_thread_time = __import__("time").thread_time
 STALLS = (0.001, 0.02, 0.15, 0.5, 2.0)
 
 _real_start = threading.Thread.start
@@ -48,7 +50,7 @@ class BusyLoop(BaseException):
 
 class SimThread:
     __slots__ = ("idx", "name", "sem", "state", "pred", "deadline", "timed_out", "real",
-                 "ord", "died", "settling", "why")
+                 "ord", "died", "settling", "why", "t_resume")
 
     def __init__(self, idx, name):
         self.idx = idx
@@ -58,6 +60,7 @@ class SimThread:
         self.pred = None
         self.deadline = None
         self.timed_out = False
+        self.t_resume = None
         self.real = None
         self.ord = 0
         self.died = None        # (exception class name, message, innermost Pyro5 frame) if run() raised
@@ -99,6 +102,7 @@ class Sched:
         self.deaths = []           # threads whose run() raised
         self.trace = None          # optional list of readable events (replay / debugging)
         self.line_hits = 0
+        self.slow_steps = []        # (thread name, CPU seconds, kind of the yield that ended the step)
         self.stalls = 0
         self.inst_steps = {}
 
@@ -290,6 +294,12 @@ class Sched:
     def _handoff(self, me, must_leave=False, kind="block"):
         self.steps += 1
         self.inst_steps[me.idx] = self.inst_steps.get(me.idx, 0) + 1
+        cpu = _thread_time()
+        t_res = getattr(me, "t_resume", None)
+        if t_res is not None and cpu - t_res > SLOW_STEP_CPU_S and not self.killing:
+            # one step (between two yield points) of this thread burnt that much CPU time of its own: on the virtual clock it
+            # took no time at all, in a real process everything else stood still for it (GIL)
+            self.slow_steps.append((me.name, round(cpu - t_res, 1), kind))
         if self.steps > self.max_steps:
             self._fail(StepCap("step cap %d reached" % self.max_steps))
             nxt = self.threads[0]
@@ -301,6 +311,7 @@ class Sched:
                 nxt = self.threads[0]
         if nxt is me:
             self._wake(me)
+            me.t_resume = _thread_time()
             return
         self.switches += 1
         self.sev("sw", me.idx, nxt.idx)
@@ -311,6 +322,7 @@ class Sched:
             if self.killing and me.idx != 0:
                 raise SimKill()
             self._wake(me)
+            me.t_resume = _thread_time()
 
     def _fail(self, exc):
         """wake the driver with an exception (deadlock / step cap)"""
@@ -851,8 +863,9 @@ class TimeFacade:
         return self._s.now
 
     def monotonic(self):
+        # a clock of its own, as on a real system: unrelated to the epoch-based time() (mixing the two must not go unnoticed)
         self._s.tick()
-        return self._s.now
+        return self._s.now - EPOCH + 86400.25
 
     perf_counter = monotonic
 
